@@ -401,6 +401,10 @@ def contains(item, container, cmode=False):
 		return mk_or(*[values_equal(item, c) for c in container])
 	if isinstance(container, SSet):
 		return container.has(int_term(item))
+	if isinstance(container, SSetT):
+		return container.has(item)
+	if isinstance(container, EmptySet):
+		return False
 	if isinstance(container, SSeq):
 		j = z3.Int(fresh_name('j'))
 		return z3.Exists([j], z3.And(j >= 0, j < container.length, bool_term(values_equal(container.at(j), item))))
